@@ -23,7 +23,8 @@ def absorb(ctx, report, label):
 
 
 def native(ctx, mode, max_len, random, max_random_len):
-    for profile in ("dev", "release"):
+    # the success path never unwinds: it is also run in programs built with panic=abort
+    for profile in ("dev", "release") + (("devabort", "relabort") if mode == "convert" else ()):
         binary = common.cargo_build("vecmon", profile)
         jobs = []
         nsh = 8
